@@ -22,6 +22,8 @@ PROPS = {
     "C06": dict(target="rust", levels=["O", "S3"], quick=(16, 14), thorough=(64, 40)),
     "C10": dict(target="rust", levels=["O", "S2", "CH"], quick=(16, 10), thorough=(64, 30)),
     "C11": dict(target="rust", levels=["O", "S3", "CT"], quick=(16, 12), thorough=(64, 40)),
+    "C14": dict(target="rust", levels=["O", "S3"], quick=(16, 46), thorough=(64, 120), gen="c14"),
+    "C15": dict(target="rust", levels=["O", "S3"], quick=(16, 30), thorough=(64, 100), gen="c15"),
     "C16": dict(target="arena", levels=["O", "S3"], quick=(16, 16), thorough=(64, 60)),
 }
 
@@ -51,14 +53,21 @@ def make_shards(prop, cfg, seed, tier, root):
     if corp:
         shards.append("".join(corp))
     for s in range(nshard):
-        if cfg["target"] == "arena":
-            hs = gen.gen_arena(seed, s, nhist, tier)
-        else:
-            hs = gen.gen_rust(prop, seed, s, nhist, tier)
-            if prop == "C10" and s == 0:
-                hs = gen.gen_capacity_histories(seed) + hs
+        hs = gen_histories(prop, cfg, seed, s, nhist, tier)
+        if prop == "C10" and s == 0:
+            hs = gen.gen_capacity_histories(seed) + hs
         shards.append("".join(h.text() for h in hs))
     return shards
+
+
+def gen_histories(prop, cfg, seed, s, nhist, tier):
+    if cfg["target"] == "arena":
+        return gen.gen_arena(seed, s, nhist, tier)
+    if cfg.get("gen") == "c14":
+        return gen.gen_c14(seed, s, nhist, tier)
+    if cfg.get("gen") == "c15":
+        return gen.gen_c15(seed, s, nhist, tier)
+    return gen.gen_rust(prop, seed, s, nhist, tier)
 
 
 def history_from_ops(ops_path, hid):
@@ -142,10 +151,7 @@ def verdict(prop, cfg, tier, seed, pr, results, runner, drv, t0, vp):
         from concurrent.futures import ThreadPoolExecutor
         jobs = []
         for s in range(16):
-            if cfg["target"] == "arena":
-                hs = gen.gen_arena(seed + 7919, 1000 + s, nhist * 3, tier)
-            else:
-                hs = gen.gen_rust(prop, seed + 7919, 1000 + s, nhist * 3, tier)
+            hs = gen_histories(prop, cfg, seed + 7919, 1000 + s, nhist * 3, tier)
             jobs.append((f"{prop}-x{s}", "".join(h.text() for h in hs), drv, runner, False))
         with ThreadPoolExecutor(16) as ex:
             xs = list(ex.map(runner.run_shard, jobs))
